@@ -18,7 +18,7 @@ import itertools
 import types
 
 from pyvc.explore import Exploration
-from pyvc.sym import to_sint, And, is_sym
+from pyvc.sym import to_sint, And, is_sym, ite
 from pyvc import runner
 from pyvc.shims import shimmed
 from spec.sem import mask, shape_range
@@ -281,6 +281,54 @@ def check_process_after_reset():
     return runner.from_exploration(name, Exploration(name, body).run())
 
 
+def check_lhs_selector_settles(form):
+    """a combinational assignment whose TARGET has a run-time selector (array index, bit_select / word_select offset): when the
+    selector alone changes, ctx.set() returns with the outputs recomputed for the new selector (the selector is an input of
+    the process although it only occurs on the left-hand side)"""
+    from amaranth.hdl import Module, Signal, Array
+    from amaranth.sim import Simulator
+    name = f"engine[lhs-selector,{form}]"
+
+    def body(path):
+        idx, d = Signal(2, name="idx"), Signal(2, name="d")
+        o0, o1, o2 = Signal(2, name="o0"), Signal(2, name="o1"), Signal(2, name="o2")
+        wide = Signal(6, name="wide")
+        m = Module()
+        dummy = Signal(name="dummy")
+        m.d.sync += dummy.eq(~dummy)
+        if form == "array":
+            m.d.comb += Array([o0, o1, o2])[idx].eq(d)
+        elif form == "bit_select":
+            m.d.comb += wide.bit_select(idx, 2).eq(d)
+        else:
+            m.d.comb += wide.word_select(idx, 2).eq(d)
+        sim = Simulator(m)
+        sim.add_clock(1e-6)
+        top_i = 2 if form == "array" else 3             # (what an out-of-range array index selects is C02's clause, not this one's)
+        dv, i1, i2 = path.var("d", 0, 3), path.var("i1", 0, top_i), path.var("i2", 0, top_i)
+        res = []
+
+        async def tb(ctx):
+            ctx.set(d, dv)
+            for iv in (i1, i2):
+                ctx.set(idx, iv)                 # only the selector changes
+                res.append((ctx.get(o0), ctx.get(o1), ctx.get(o2), ctx.get(wide)))
+        sim.add_testbench(tb)
+        with symbolic_engine():
+            sim.run_until(1.2e-6)
+        for k, iv in enumerate((i1, i2)):
+            g0, g1, g2, gw = res[k]
+            if form == "array":
+                sel = iv
+                path.prove(f"{name}::after-set{k}", And(to_sint(g0) == ite(sel == 0, dv, 0), to_sint(g1) == ite(sel == 1, dv, 0),
+                                                        to_sint(g2) == ite(sel == 2, dv, 0)))
+            elif form == "bit_select":
+                path.prove(f"{name}::after-set{k}", to_sint(gw) == ((dv << iv) & 63))
+            else:
+                path.prove(f"{name}::after-set{k}", to_sint(gw) == ((dv << (2 * iv)) & 63))
+    return runner.from_exploration(name, Exploration(name, body).run())
+
+
 def check_testbench_order():
     """testbenches run in the order in which they were added, also when an earlier one wakes a later one in the middle of
     a pass: `monitor` (added second, waiting for `valid`) sees the data `driver` (added first) wrote, not what `other`
@@ -440,6 +488,7 @@ def check_kernel_agrees(k, e=None, broken=False):
 def tasks(tier):
     ts = [("engine-chain", edge, rot) for edge in ("pos", "neg") for rot in ((0, 1, 2, 3) if tier == "quick" else range(6))]
     ts += [("engine-proc", "comb"), ("engine-proc", "sync"), ("engine-proc", "after-reset"), ("engine-tb-order",)]
+    ts += [("engine-lhs-selector", f) for f in ("array", "bit_select", "word_select")]
     ts += kernel_tasks(tier)
     return ts
 
@@ -448,6 +497,8 @@ def run_task(task):
     k = task[0]
     if k == "engine-chain":
         return check_chain(task[1], task[2])
+    if k == "engine-lhs-selector":
+        return check_lhs_selector_settles(task[1])
     if k == "engine-proc" and task[1] == "after-reset":
         return check_process_after_reset()
     if k == "engine-proc":
